@@ -15,12 +15,13 @@ RULE = ("seeded leader files in which every non-spare field of every record hold
         "F/E notation, explicit '+', leading zeros, '.5'/'5.', full-width mantissas, tiny/huge exponents, left/right/centred "
         "placement; ints incl. signs, leading zeros and the width's maximum; full-width texts with inner blanks and quotes; every "
         "enumerated code), 1..136 attitude points, 1..16 channels, map-projection record absent/present with each designator "
-        "(UTM, UPS, LCC, MER), facility records of random length; opened through open_alos2 (memory / local / vfs). "
+        "(UTM, UPS, LCC, MER), facility records of random length; opened through open_alos2 (memory / local / vfs); every third product is then replaced in place (same root and file "
+        "names, new content in every record) and opened again in the same process. "
         "evaluations = leaves compared; non-trivial = product whose /metadata was compared completely; distinct = distinct "
         "(n_mp, designator, attitude-count class, channel count, fs) signatures plus distinct value classes generated")
 ASSUMPTIONS = ["vf/spec/leaves_leader.json is the documented layout (frozen from the pinned tree, reviewed; record sizes match the published format)",
                "E/F notation only (no Fortran D exponents)", "scaled values are compared within 4 ulp, unscaled ASCII floats exactly"]
-REQUIRED_OBS = ["products", "leaves_compared", "value_classes"]
+REQUIRED_OBS = ["products", "leaves_compared", "value_classes", "replaced_in_place"]
 N = {"quick": 480, "thorough": 20000}
 
 
@@ -46,24 +47,40 @@ def run_case(i, tier, seed):
                                    classes=classes, leader_kw=leader_kw)
     kind = ["memory", "local", "vfs"][i % 3]
     root = harness.unique_root(kind)
-    url = synth.install(files, root, kind)
     problems = []
     n = 0
-    try:
-        try:
-            tree = harness.open_tree(url, use_cache=False)
-            n, src = treecheck.check_metadata(tree, files[info["names"]["led"]], problems)
-        except Exception as e:
-            problems.append(f"open_alos2 raised on a well-formed product: {harness.exc_sig(e)}")
-    finally:
-        synth.uninstall(files, root, kind)
+    replaced = 0
     L = info["leader"]
+    rounds = [(files, info)]
+    if i % 3 == 0:
+        # the same product directory, re-delivered: same root and file names, every record with new content
+        pol = info["names"]["imgs"][0].split("-")[1]
+        kw2 = dict(leader_kw)
+        kw2["designator"] = gen.DESIGNATORS[(i // 2 + 1) % 4]
+        rounds.append(gen.rich_product(rng, [seed, i, 1], level=level, n_images=1, scans=[None], max_lines=2, max_pixels=2,
+                                       classes=classes, leader_kw=kw2, pols=[pol]))
+        assert sorted(rounds[1][0]) == sorted(files), "replacement product must reuse the file names"
+    for r, (files_r, info_r) in enumerate(rounds):
+        url = synth.install(files_r, root, kind)
+        try:
+            try:
+                tree = harness.open_tree(url, use_cache=False)
+                before = len(problems)
+                k, src = treecheck.check_metadata(tree, files_r[info_r["names"]["led"]], problems)
+                n += k
+                if r:
+                    replaced += 1
+                    problems[before:] = ["[leader replaced in place, second open in this process] " + p for p in problems[before:]]
+            except Exception as e:
+                problems.append(f"open_alos2 raised on a well-formed product: {harness.exc_sig(e)}")
+        finally:
+            synth.uninstall(files_r, root, kind)
     violations = [{"what": p, "detail": {"leader": L, "fs": kind}} for p in problems[:6]]
     for f in contracts.drain():
         violations.append({"what": f"contract {f['contract']} failed", "detail": f["detail"]})
     sig = [f"mp:{L['n_mp']}|{L['designator'].split('-')[0] if L['n_mp'] else '-'}|att:{att_class(L['n_att'])}|ch:{L['n_ch']}|{kind}"]
     sig += [f"class:{c}" for c in classes]
     return {"sig": sig, "evals": n, "violations": violations,
-            "obs": {"products": 1, "leaves_compared": n, "value_classes": len(classes)},
+            "obs": {"products": len(rounds), "leaves_compared": n, "value_classes": len(classes), "replaced_in_place": replaced},
             "sample": {"leader": L, "fs": kind, "leaves_compared": n, "value_classes": sorted(classes)[:10]},
             "nontrivial": n > 0}
